@@ -203,6 +203,25 @@ pub struct F33 {
     pub w: F32,
 }
 
+/// list items that hold a struct-valued (non-list) field, between two other lists
+#[derive(Debug, Clone, PartialEq, Serialize, Deserialize)]
+pub struct Meta35 {
+    pub x: String,
+}
+#[derive(Debug, Clone, PartialEq, Serialize, Deserialize)]
+pub struct Holder35 {
+    pub m: Meta35,
+}
+#[derive(Debug, Clone, PartialEq, Serialize, Deserialize)]
+pub struct F35 {
+    #[serde(default)]
+    pub a: Vec<String>,
+    #[serde(default)]
+    pub b: Vec<Holder35>,
+    #[serde(default)]
+    pub d: Vec<u32>,
+}
+
 /// a fixed-size list (its visitor stops after the last item, before the parent's end tag) next to two growable lists
 #[derive(Debug, Clone, PartialEq, Serialize, Deserialize)]
 pub struct F34 {
@@ -349,7 +368,7 @@ pub struct H07 {
     pub v: Vec<Option<Choice>>,
 }
 
-pub const TYPES: &[&str] = &["F01", "F02", "F03", "F04", "F05", "F07", "F08", "F11", "F15", "F16", "F17", "F18", "F19", "F20", "F22", "F23", "F24", "F25", "F26", "F27", "F28", "F29", "F30", "F31", "F32", "F33", "F34", "H01", "H02", "H05", "H06", "H07"];
+pub const TYPES: &[&str] = &["F01", "F02", "F03", "F04", "F05", "F07", "F08", "F11", "F15", "F16", "F17", "F18", "F19", "F20", "F22", "F23", "F24", "F25", "F26", "F27", "F28", "F29", "F30", "F31", "F32", "F33", "F34", "F35", "H01", "H02", "H05", "H06", "H07"];
 
 /// Apply `$body` with `T` bound to the family type named `$name`.
 #[macro_export]
@@ -376,6 +395,7 @@ macro_rules! with_type {
             "F25" => { type $T = $crate::family::F25; $body }
             "F26" => { type $T = $crate::family::F26; $body }
             "F29" => { type $T = $crate::family::F29; $body }
+            "F35" => { type $T = $crate::family::F35; $body }
             "F30" => { type $T = $crate::family::F30; $body }
             "F31" => { type $T = $crate::family::F31; $body }
             "F32" => { type $T = $crate::family::F32; $body }
@@ -476,7 +496,7 @@ pub fn de_reader(ty: &str, xml: &[u8], cuts: &[usize]) -> Result<Value, String> 
 }
 
 /// An entity resolver that records what `capture` is given (the deserializer's DOCTYPE path) and resolves like the default one
-pub struct RecResolver(pub std::rc::Rc<std::cell::RefCell<Vec<Vec<u8>>>>);
+pub struct RecResolver(pub std::rc::Rc<std::cell::RefCell<Vec<Vec<u8>>>>, pub bool);
 impl quick_xml::de::EntityResolver for RecResolver {
     type Error = std::convert::Infallible;
     fn capture(&mut self, d: quick_xml::events::BytesText) -> Result<(), Self::Error> {
@@ -484,7 +504,28 @@ impl quick_xml::de::EntityResolver for RecResolver {
         Ok(())
     }
     fn resolve(&self, e: &str) -> Option<&str> {
-        quick_xml::escape::resolve_predefined_entity(e)
+        // custom (Escape!CustomEnt): the predefined entities plus  a -> "A;&"
+        if self.1 && e == "a" {
+            Some("A;&")
+        } else {
+            quick_xml::escape::resolve_predefined_entity(e)
+        }
+    }
+}
+
+/// A String target through the resolver entry points with the CUSTOM resolver (string source, or a chunked reader)
+pub fn de_string_custom(xml: &str, cuts: Option<&[usize]>) -> Result<String, String> {
+    let cap = std::rc::Rc::new(std::cell::RefCell::new(Vec::new()));
+    match cuts {
+        None => {
+            let mut de = quick_xml::de::Deserializer::from_str_with_resolver(xml, RecResolver(cap, true));
+            String::deserialize(&mut de).map_err(|e| format!("{e:?}"))
+        }
+        Some(c) => {
+            let src = crate::env::Chunked::new(xml.as_bytes(), crate::env::Plan { cuts: c.to_vec(), ..Default::default() });
+            let mut de = quick_xml::de::Deserializer::with_resolver(src, RecResolver(cap, true));
+            String::deserialize(&mut de).map_err(|e| format!("{e:?}"))
+        }
     }
 }
 
@@ -496,12 +537,12 @@ pub fn de_resolver(ty: &str, xml: &str, cuts: Option<&[usize]>) -> (Result<Value
         with_type!(ty, T, {
             let val: T = match cuts {
                 None => {
-                    let mut de = quick_xml::de::Deserializer::from_str_with_resolver(xml, RecResolver(cap.clone()));
+                    let mut de = quick_xml::de::Deserializer::from_str_with_resolver(xml, RecResolver(cap.clone(), false));
                     T::deserialize(&mut de).map_err(|e| format!("{e:?}"))?
                 }
                 Some(c) => {
                     let src = crate::env::Chunked::new(xml.as_bytes(), crate::env::Plan { cuts: c.to_vec(), ..Default::default() });
-                    let mut de = quick_xml::de::Deserializer::with_resolver(src, RecResolver(cap.clone()));
+                    let mut de = quick_xml::de::Deserializer::with_resolver(src, RecResolver(cap.clone(), false));
                     T::deserialize(&mut de).map_err(|e| format!("{e:?}"))?
                 }
             };
